@@ -4839,16 +4839,16 @@ fn evaluate_scalar_func(
                 .ok_or_else(|| QueryError::InvalidArgument("CRC32 requires 1 argument".into()))?;
 
             if let Some(str_arr) = arr.as_any().downcast_ref::<StringArray>() {
-                let result: Int32Array = str_arr
+                let result: Int64Array = str_arr
                     .iter()
-                    .map(|opt| opt.map(|s| crc32fast::hash(s.as_bytes()) as i32))
+                    .map(|opt| opt.map(|s| crc32fast::hash(s.as_bytes()) as i64))
                     .collect();
                 return Ok(Arc::new(result));
             }
             if let Some(bin_arr) = arr.as_any().downcast_ref::<BinaryArray>() {
-                let result: Int32Array = bin_arr
+                let result: Int64Array = bin_arr
                     .iter()
-                    .map(|opt| opt.map(|b| crc32fast::hash(b) as i32))
+                    .map(|opt| opt.map(|b| crc32fast::hash(b) as i64))
                     .collect();
                 return Ok(Arc::new(result));
             }
